@@ -12,7 +12,7 @@ from .dataflow import own_nodes, own_statements, params_of
 from .match import Expander, norm, text
 from .report import Report
 from .rules_types import Flow, scalar_types, tloc
-from .source import AnalysisError, Project, dotted
+from .source import UNK, AnalysisError, Project, dotted
 
 TYPES = D.TYPES
 
@@ -1024,3 +1024,65 @@ def z_r10_offset_of_the_given_value(p: Project, rep: Report):
         rep.note("Z-R10 undecided: format_datetime reads no utcoffset() / tzname()")
         return
     rep.check("Z-R10", "format_datetime:zone-data-of-the-given-value", bad is None, f"{text(bad[0])[:40]} is evaluated on `{bad[1]}`, a value computed from the one given: around a change of the zone's offset the text carries the offset of a different instant" if bad else "", tloc(p, bad[0] if bad else fd0))
+
+
+def _const_table(p: Project, modname: str, name: str):
+    """a module-level {str: int} table: a dict display, or `T = {}` filled by ONE module-level loop over the items of
+    another literal table with constant-foldable keys (f-strings of the loop variable) and values (loop value +/- int).
+    None when it is built any other way."""
+    m = p.module(modname)
+    v = p.resolve(modname, name)
+    if isinstance(v, dict) and v and all(isinstance(k, str) and isinstance(x, int) for k, x in v.items()):
+        return dict(v)
+    out = {}
+    started = False
+    for st in m.tree.body:
+        if isinstance(st, (ast.Assign, ast.AnnAssign)):
+            tg = st.targets[0] if isinstance(st, ast.Assign) and len(st.targets) == 1 else (st.target if isinstance(st, ast.AnnAssign) else None)
+            if isinstance(tg, ast.Name) and tg.id == name:
+                if isinstance(st.value, ast.Dict) and not st.value.keys:
+                    started = True
+                else:
+                    return None
+        elif started and isinstance(st, ast.For) and any(isinstance(x, ast.Subscript) and isinstance(x.ctx, ast.Store) and isinstance(x.value, ast.Name) and x.value.id == name for x in ast.walk(st)):
+            it = st.iter
+            if not (isinstance(it, ast.Call) and isinstance(it.func, ast.Attribute) and it.func.attr == "items" and isinstance(it.func.value, ast.Name)):
+                return None
+            src = p.resolve(modname, it.func.value.id)
+            if not (isinstance(src, dict) and isinstance(st.target, ast.Tuple) and len(st.target.elts) == 2 and all(isinstance(e, ast.Name) for e in st.target.elts)):
+                return None
+            kn, vn = st.target.elts[0].id, st.target.elts[1].id
+            for k0, v0 in src.items():
+                for b in st.body:
+                    if not (isinstance(b, ast.Assign) and len(b.targets) == 1 and isinstance(b.targets[0], ast.Subscript) and isinstance(b.targets[0].value, ast.Name) and b.targets[0].value.id == name):
+                        return None
+                    from .fold import fold
+
+                    key = fold(b.targets[0].slice, {kn: k0, vn: v0}, p, modname)
+                    val = fold(b.value, {kn: k0, vn: v0}, p, modname)
+                    if val is UNK and isinstance(b.value, ast.BinOp) and isinstance(b.value.op, ast.Sub):
+                        l_, r_ = fold(b.value.left, {kn: k0, vn: v0}, p, modname), fold(b.value.right, {kn: k0, vn: v0}, p, modname)
+                        val = l_ - r_ if isinstance(l_, int) and isinstance(r_, int) else UNK
+                    if not isinstance(key, str) or not isinstance(val, int) or isinstance(val, bool):
+                        return None
+                    out[key] = val
+    return out or None
+
+
+def z_r12_zone_table_consistent(p: Project, rep: Report):
+    """the zone-name table agrees with itself: daylight time is one hour ahead of the standard time of the same zone"""
+    rep.rule("Z-R12", "the zone-name table utils.TZS (used when the offset field cannot be read: `[-:EDT]`) is consistent with the names it holds: for every pair <Z>ST / <Z>DT the daylight offset is the standard offset PLUS one hour, and every offset lies in -12..+14 - whether the table is written out or generated from a table of standard times")
+    tbl = _const_table(p, "ofxtools.utils", "TZS")
+    if tbl is None:
+        rep.note("Z-R12 undecided: utils.TZS is neither a literal table nor generated by a recognised constant loop")
+        return
+    rel = p.module("ofxtools.utils").relpath
+    n = 0
+    for k, v in sorted(tbl.items()):
+        if k.endswith("DT") and (k[:-2] + "ST") in tbl:
+            n += 1
+            st_ = tbl[k[:-2] + "ST"]
+            rep.check("Z-R12", f"TZS[{k}]=TZS[{k[:-2]}ST]+1", v == st_ + 1, f"TZS[{k!r}] = {v} but TZS[{k[:-2] + 'ST'!r}] = {st_}: daylight time is one hour AHEAD of standard time ({st_ + 1}); a date-time stamped [-:{k}] is read {abs(v - st_ - 1)} hour(s) off" if v != st_ + 1 else "", rel)
+        if not -12 <= v <= 14:
+            rep.check("Z-R12", f"TZS[{k}]:in-range", False, f"TZS[{k!r}] = {v} is not a GMT offset (-12..+14)", rel)
+    rep.floor("Z-R12", n, 3, "standard/daylight pairs")
